@@ -1,35 +1,34 @@
-"""Per-property configuration of /verif/check."""
+"""Per-property configuration of /verif/check: one JSON file per claimed property in
+tools/propcfg.d/Cxx.json with the keys
+
+  technique, level_text, level_note   -> MANIFEST.json
+  rule                                 -> evidence: how cases are generated, what is non-trivial
+  trusted_base, assumptions, notes     -> evidence
+  timeout_quick, timeout_thorough      -> seconds allowed for the harness run (optional)
+
+A property without a file is not claimed (listed under not_applicable in MANIFEST.json).
+"""
+import glob
+import json
+import os
+
+_D = os.path.join(os.path.dirname(os.path.abspath(__file__)), "propcfg.d")
 
 # commits in /repo that add guarded hooks (cfg coupe_verif)
-HOOK_COMMITS = []
+HOOK_COMMITS = json.load(open(os.path.join(_D, "_hooks.json")))["commits"]
 
-# properties not claimed, with the reason (none planned; filled while work is in progress)
-NOT_CLAIMED = {}
+# properties not claimed, with the reason
+NOT_CLAIMED = json.load(open(os.path.join(_D, "_not_claimed.json")))
 
-PROPS = {
-    "C13": {
-        "technique": "Lean 4 proof (soundness, completeness, totality of the CKK search by induction over the model) + differential correspondence with the Rust code, exhaustive on small vectors",
-        "level_text": "Theorems ckk_sound, ckk_complete, ckk_total (all weight vectors, all tolerances, unbounded length) proved in Lean 4 over an executable model of ckk.rs; the model is tied to the code by running both on every vector over a small alphabet (exhaustive) and on random vectors and comparing the outcome and the ids exactly; a subset-sum oracle on the implementation's outputs supplies failing inputs.",
-        "level_note": "Trusted: Lean kernel; std sort/binary_search contracts; the f64 conversion of the tolerance is evaluated, not proved; i64 overflow excluded by the contract. Weights are integers in the theorems (the property's quantifier).",
-        "rule": "exhaustive: every i64 weight vector over a small alphabet up to a small length x 5 tolerances "
-                "(quick {0..3}^<=6, thorough {0..5}^<=7); random vectors up to 14/20 elements in 5 shapes "
-                "(small, wide, ties, huge, one dominant) x random tolerances; a malformed stream of length "
-                "mismatches. Non-trivial: at least two weights and matching lengths; distinct by op line.",
-        "trusted_base": [
-            "std: sort_unstable_by returns the sorted permutation, binary_search_by returns the partition point on a sorted Vec (keys (weight,id) pairwise distinct)",
-            "f64 product sum*tolerance and its truncation to i64 are evaluated with Lean's Float (C double) in the driver, not reasoned about",
-        ],
-        "assumptions": [
-            "weights are exact integers (i64 in the runs, Int in the theorems); no overflow of i64 sums",
-        ],
-    },
-}
+PROPS = {}
+for _f in sorted(glob.glob(os.path.join(_D, "C*.json"))):
+    PROPS[os.path.basename(_f)[:-5]] = json.load(open(_f))
 
 
 def same(prop, impl_line, model_line):
-    """Exact comparison of canonical output lines; per-property relaxations go here and are documented."""
-    if impl_line.startswith("panic ") and model_line.startswith("panic"):
-        # the model names the panic site class after `panic `; the implementation line has file:line: message.
+    """Exact comparison of canonical output lines. The only relaxation: a panic is compared by
+    site class (the model prints `panic <class>`, the implementation `panic file:line: message`)."""
+    if impl_line.startswith("panic") and model_line.startswith("panic"):
         cls = model_line[len("panic"):].strip()
         return cls == "" or cls in impl_line
     return impl_line == model_line
